@@ -143,8 +143,8 @@ class DirectoryResourcePopulator:
 
             if not pt.isdir(full_dir_path):
                 raise ValueError(
-                    f"Trying to gather resources from {full_path}, but it's "
-                    'not a directory')
+                    f'Trying to gather resources from {full_dir_path}, but '
+                    "it's not a directory")
 
             for full_file_path in glob.iglob(pt.join(full_dir_path, '**'),
                                              recursive=True):
